@@ -1,0 +1,44 @@
+// SPDX-FileCopyrightText: 2026 The Pion community <https://pion.ly>
+// SPDX-License-Identifier: MIT
+
+//go:build verif
+
+// Structural contracts (comment-only) of the task loop for property C10: a
+// submission returns nil exactly when its task was handed to the loop and the
+// loop signalled its completion; it returns an error exactly when the task was
+// never handed over. ("select" / "recv" name the select statement and the
+// blocking receive as program points; case 2 of the select is the send of the task.)
+
+package taskloop
+
+//@ closeonly taskloop.Loop.done
+
+//@ func (*Loop).Run
+//@   props C10
+//@   ghostvar submitted bool = false
+//@   ghostvar completed bool = false
+//@   site call select#1 ghost submitted := result0 == 2
+//@   site call recv#1 assert waits-only-for-its-own-submitted-task: submitted && arg0 == done && !completed
+//@   site call recv#1 ghost completed := true
+//@   ensures success-only-after-the-task-completed: result == nil ==> submitted && completed
+//@   ensures error-only-if-the-task-was-never-handed-over: result != nil ==> !submitted
+//@   ensures closed-loop-refuses: old(closed(l.done)) ==> result != nil
+
+// The loop body: each received task is run exactly once and its done channel is
+// closed after it returned; the close callback runs once, after the loop ended
+// and before taskLoopDone is closed.
+//@ func (*Loop).runLoop
+//@   props C10
+//@   ghostvar ran bool = false
+//@   loop 1 invariant nothing-pending-between-iterations: !ran
+//@   site call fn#1 assert runs-each-received-task-once: !ran
+//@   site call fn#1 ghost ran := true
+//@   site call close#1 assert completion-signalled-after-the-task-ran: ran
+//@   site call close#1 ghost ran := false
+
+//@ func (*Loop).runLoop$1
+//@   props C10
+//@   ghostvar closedCallback bool = false
+//@   site call onClose#1 assert close-callback-once: !closedCallback
+//@   site call onClose#1 ghost closedCallback := true
+//@   site call close#1 assert loop-done-signalled-after-the-callback: closedCallback && arg0 == l.taskLoopDone
